@@ -92,7 +92,7 @@ def locate(calls, target_name, when):
     return None
 
 
-def one_run(w, work, idx, inject=None, fsize=None, only=None):
+def one_run(w, work, idx, inject=None, fsize=None, only=None, cont=False, post=False):
     d = os.path.join(work, "run%d" % idx)
     shutil.rmtree(d, ignore_errors=True)
     os.makedirs(os.path.join(d, "assets"))
@@ -109,13 +109,21 @@ def one_run(w, work, idx, inject=None, fsize=None, only=None):
         env["VERIF_FSIZE"] = str(fsize)
     if only is not None:
         env["VERIF_ONLY_STEP"] = str(only)
+    if cont:
+        env["VERIF_CONTINUE"] = "1"
     p = subprocess.run(cmd, env=env, stdout=subprocess.PIPE, stderr=subprocess.PIPE, text=True, timeout=120)
     rd = subprocess.run([w, "read", os.path.join(d, "assets")], stdout=subprocess.PIPE, stderr=subprocess.PIPE, text=True, timeout=60)
+    post_out = None
+    if post:
+        # crash recovery: a fresh process loads the directory and performs one small healthy store
+        ps = subprocess.run([w, "poststore", os.path.join(d, "assets")], stdout=subprocess.PIPE, stderr=subprocess.PIPE, text=True, timeout=60)
+        rd2 = subprocess.run([w, "read", os.path.join(d, "assets")], stdout=subprocess.PIPE, stderr=subprocess.PIPE, text=True, timeout=60)
+        post_out = (ps.stdout.strip().splitlines() or ["POST-NOTHING"])[-1], (rd2.stdout.strip().splitlines() or ["READ-NOTHING"])[-1]
     steps = []
     if os.path.exists(res):
         steps = [l.split() for l in open(res).read().splitlines() if l.startswith("STEP")]
     main, calls = parse_log(log)
-    out = {"rc": p.returncode, "read": rd.stdout.strip().splitlines()[-1] if rd.stdout.strip() else "READ-NOTHING " + rd.stderr[-200:], "steps": steps, "calls": calls, "dir": d}
+    out = {"rc": p.returncode, "read": rd.stdout.strip().splitlines()[-1] if rd.stdout.strip() else "READ-NOTHING " + rd.stderr[-200:], "steps": steps, "calls": calls, "dir": d, "post": post_out}
     return out
 
 
@@ -154,15 +162,37 @@ def run(tier, seed, t0):
     harness_errors = []
     nontrivial = set()
 
+    # fault followed by later healthy stores in the same process (history continues after the failed store)
+    for c in pl:
+        for e in errnos[:2]:
+            jobs.append(("cont-error:" + e, c, "%s:error=%s:when=%d" % (c["name"], e, c["when"]), None))
+    for L in sizes:
+        jobs.append(("cont-fsize:%d" % L, None, None, L))
+
     def do(i_job):
         i, (kind, c, inj, L) = i_job
-        return i, kind, c, one_run(w, work, i + 1, inject=inj, fsize=L)
+        return i, kind, c, one_run(w, work, i + 1, inject=inj, fsize=L, cont=kind.startswith("cont-"), post=(kind == "kill" or kind.endswith("+kill")))
 
     with cf.ThreadPoolExecutor(max_workers=vlib.NCPU) as ex:
         for i, kind, c, r in ex.map(do, list(enumerate(jobs))):
             results.append((kind, c, r))
             steps = r["steps"]
             done = sum(1 for s in steps if s[2] == "err=false")
+            if kind.startswith("cont-"):
+                # the history went on after the failed store(s): the file must hold what memory held at the last successful store
+                okst = [s for s in steps if s[2] == "err=false"]
+                want = okst[-1][4][len("mem="):] if okst else digests[0]
+                case = "%s%s: %d of %d stores failed, history continued" % (kind, "" if c is None else " at step %d call #%d %s" % (c["step"], c["ord"], c["name"]), len(steps) - len(okst), len(steps))
+                nontrivial.add(case)
+                if len(steps) - len(okst) == 0 and c is not None:
+                    pass
+                rd = r["read"]
+                if not (rd.startswith("READ-OK") and rd.split()[1] == want):
+                    viols.append({"key": "later-store-after-fault-corrupts-file:" + kind.split(":")[0], "what": "%s: a fresh process reads %s; the last successful store wrote %s" % (case, rd, want), "replay": {"case": case, "inject": jobs[i][2], "fsize": L_of(kind[5:])}})
+                for f in [s for s in steps if s[2] == "err=true" and s[5] == "whole=true"]:
+                    if f[4] != "mem=" + f[3][len("before="):]:
+                        viols.append({"key": "failed-SetClientConf-not-rolled-back", "what": "%s: step %s" % (case, f[1]), "replay": {"case": case}})
+                continue
             # which step was interrupted?
             if kind.startswith("kill") or kind.endswith("+kill"):
                 if c is not None:
@@ -202,6 +232,10 @@ def run(tier, seed, t0):
                         harness_errors.append("error injection landed at %s, planned (%d,%d)" % (loc, c["step"], c["ord"]))
                         continue
             nontrivial.add(case)
+            if r.get("post"):
+                po, rd2 = r["post"]
+                if not (po.startswith("POST-OK") and rd2.startswith("READ-OK") and rd2.split()[1] == po.split()[1]):
+                    viols.append({"key": "store-after-crash-corrupts-file", "what": "%s, then a fresh process performed SetGeneration: %s; read back: %s" % (case, po, rd2), "replay": {"case": case, "inject": jobs[i][2]}})
             rd = r["read"]
             ok = rd.startswith("READ-OK") and rd.split()[1] in allowed
             if not ok:
